@@ -200,40 +200,86 @@ def match_D22(v, trace):
     return True   # AdoptedCounts after a restart: the pre-crash instance had the wrong view of that order
 
 
-def match_D26(v, trace):
-    """BETDAQ: an UPDATING order was reset by process_betdaq_current_order on a new sequence number (first poll after the
-    placement, a fill) while its update request was still queued / on the wire; explained for that order as long as a
-    request for it stays outstanding"""
-    if v["prop"] != "C03" or v["name"] not in ("InFlightStatusWhileOutstanding", "OneInFlight", "InFlightRejected"):
-        return False
+def _bdq_orders_of(v):
     d = v["detail"]
     if v["name"] == "InFlightRejected":
-        orders = [d[1]]
-    elif v["name"] == "OneInFlight":
-        orders = list(_set(d) or [])
-    else:
-        orders = [x[1] for x in (_set(d) or [])]
+        return [d[1]]
+    if v["name"] == "OneInFlight":
+        return list(_set(d) or [])
+    return [x[1] for x in (_set(d) or [])]
+
+
+def _bdq_outstanding(st, o, kind=None):
+    """a request for order o is queued or on the wire (an update the exchange has applied is not outstanding any more)"""
+    if any(o in p["orders"] and (kind is None or p["kind"] == kind) for p in st.get("pool", [])):
+        return True
+    for w in st.get("wire", []):
+        if o in w["orders"] and (kind is None or w["kind"] == kind) and not (w["kind"] == "UPDATE" and o in w["applied"]):
+            return True
+    return False
+
+
+def _bdq_active(trace, o, upto, starts):
+    """taint of order o at step `upto`: switched on by a step for which starts(i, step, pre_state) holds, off once no
+    request for o is outstanding"""
+    steps = trace["steps"]
+    active = False
+    for i in range(min(upto, len(steps))):
+        s = steps[i]
+        if i > 0 and starts(i, s, steps[i - 1]["st"]):
+            active = True
+        elif active and not _bdq_outstanding(s["st"], o):
+            active = False
+    return active
+
+
+def match_D26(v, trace):
+    """BETDAQ: an UPDATING order was reset by process_betdaq_current_order on a new sequence number that is not the
+    confirmation of its update (first poll after the placement, a fill) while the update was still queued / on the wire;
+    explained for that order as long as a request for it stays outstanding"""
+    if v["prop"] != "C03" or v["name"] not in ("InFlightStatusWhileOutstanding", "OneInFlight", "InFlightRejected"):
+        return False
+    orders = _bdq_orders_of(v)
     if not orders:
         return False
-    steps = trace["steps"]
 
-    def holds(st, o, kind=None):
-        return any(o in p["orders"] and (kind is None or p["kind"] == kind) for p in st.get("pool", []))
+    def starts_for(o):
+        def starts(i, s, pre):
+            if s["ev"] != "proc" or not any(t[0] == o and t[1] == "UPDATING" and t[2] == "EXECUTABLE" and t[3] == "process_betdaq_current_order" for t in s.get("trans", [])):
+                return False
+            if any(o in p["orders"] and p["kind"] == "UPDATE" for p in pre.get("pool", [])):
+                return True
+            ent = [c for c in (pre.get("hq") or [[]])[0] if c["o"] == o]
+            for w in pre.get("wire", []):
+                if w["kind"] == "UPDATE" and o in w["orders"]:
+                    genuine = o in w["applied"] and ent and ent[-1]["price"] == pre["ord"][o]["newp"]
+                    return not genuine
+            return False
+        return starts
+    return all(_bdq_active(trace, o, v["step"], starts_for(o)) or _bdq_active(trace, o, v["step"] - 1, starts_for(o)) for o in orders)
 
-    def active_at(o, upto):
-        active = False
-        for i in range(min(upto, len(steps))):
-            s = steps[i]
-            if s["ev"] == "proc" and holds(s["st"], o, "UPDATE") and any(t[0] == o and t[1] == "UPDATING" and t[2] == "EXECUTABLE" and t[3] == "process_betdaq_current_order" for t in s.get("trans", [])):
-                active = True
-            elif active and not holds(s["st"], o):
-                active = False
-        return active
-    return all(active_at(o, v["step"]) or active_at(o, v["step"] - 1) for o in orders)
+
+def match_D27(v, trace):
+    """BETDAQ: the failure path of execute_update reset an order that had meanwhile been confirmed by a poll and had
+    accepted a new request (CANCELLING / UPDATING -> EXECUTABLE while that request is outstanding)"""
+    if v["prop"] != "C03" or v["name"] not in ("InFlightStatusWhileOutstanding", "OneInFlight", "InFlightRejected"):
+        return False
+    orders = _bdq_orders_of(v)
+    if not orders:
+        return False
+
+    def starts_for(o):
+        def starts(i, s, pre):
+            return (s["ev"] == "resp" and s["a"].get("kind") == "UPDATE"
+                    and any(t[0] == o and t[1] in ("CANCELLING", "UPDATING") and t[2] == "EXECUTABLE" and t[3] == "execute_update" for t in s.get("trans", []))
+                    and any(o in p["orders"] for p in s["st"].get("pool", [])))
+        return starts
+    return all(_bdq_active(trace, o, v["step"], starts_for(o)) or _bdq_active(trace, o, v["step"] - 1, starts_for(o)) for o in orders)
 
 
 MATCHERS = {
     "D26": match_D26,
+    "D27": match_D27,
     "D13": match_D13,
     "D21": match_D21,
     "D8": match_D8,
